@@ -294,8 +294,28 @@ def build(case, ctx, klass):
                     model[-1] in ih
                 elif what == 'copy':
                     ih.copy()
-            if model and (op != 'read' or si % 3 == 0):
+            if model and (op == 'read' and si % 3 == 0 or op != 'read' and si % 3 != 1):
                 if not agreement(ctx, ih, model, dict(klass, stage=f'grow_step:{op}')):
+                    return None, None
+            elif model and op != 'read':
+                # a hierarchy derived from the grown one before anything re-reads it: the derived index must describe the grown
+                # sequence in every view (cached tables of the source may be stale at this point)
+                how = ('static_init', 'go_init', 'rename', 'series_index')[si % 4]
+                ctx.tally('derived_after_growth', how)
+                try:
+                    if how == 'static_init':
+                        d = sf.IndexHierarchy(ih)
+                    elif how == 'go_init':
+                        d = sf.IndexHierarchyGO(ih)
+                    elif how == 'rename':
+                        d = ih.rename('renamed')
+                    else:
+                        d = sf.Series(np.arange(len(model)), index=ih).index
+                except Exception as e:
+                    ctx.violation('agreement:derivation_raised', detail={'how': how, 'exception': type(e).__name__, 'message': str(e)[:200]},
+                                  klass=dict(klass, stage='derived_after_growth', derived=how))
+                    return None, None
+                if not agreement(ctx, d, model, dict(klass, stage='derived_after_growth', derived=how)):
                     return None, None
         return ih, model
     raise KeyError(route)
@@ -355,6 +375,18 @@ def agreement(ctx, ih, model, klass):
                 bad('contains_absent')
         except Exception:
             pass
+        # the members are exactly the tuples of the sequence: a proper prefix of a label, the empty tuple and a label with one
+        # component too many are not
+        for t in (model[0], model[-1], model[len(model) // 2]):
+            t = tuple(t)
+            for key in [t[:k] for k in range(depth)] + [t + ('QQ',), t + (t[-1],)]:
+                try:
+                    inside = key in ih
+                except Exception:
+                    continue
+                if inside:
+                    bad('contains_non_member_key', key=repr(key), key_length=len(key))
+                    break
     return ok
 
 
